@@ -186,6 +186,7 @@ func (p *c04) RunCase(ctx *runner.Ctx) runner.CaseResult {
 		rq := reqs[r.Intn(len(reqs))]
 		c2 := adapt.New(adapter)
 		c2.Do(createOp(spec))
+		c2.Do(createOp(ixSpec("cmp"+spec.Name[3:], true))) // the companion table the history also writes to
 		for _, op := range hist {
 			c2.Do(op)
 		}
